@@ -2,5 +2,690 @@
 import KB.Spec
 import KB.Backend
 import KB.Lemmas.Coder
+import KB.Props.C10
 namespace KB
+open Generated
+
+/-! ### normal form of the non-compacting worker loop -/
+
+abbrev KV := Bytes × Bytes × Nat
+
+theorem emitsOf_append (a b : List Act) : emitsOf (a ++ b) = emitsOf a ++ emitsOf b := by
+  induction a with
+  | nil => rfl
+  | cons x xs ih => cases x <;> simp [emitsOf, ih]
+
+/-- what `emitPrev` emits, with the previous record held as a `Rec` -/
+def emitR (q : Rec) : List KV :=
+  if q.rev > 0 && !isTomb q.val then [(q.key, q.val, q.rev)] else []
+
+/-- The emissions of the non-compacting, non-expiring worker loop. -/
+def sLoop (R : Nat) : Rec → List Rec → List KV
+  | q, [] => emitR q
+  | q, x :: xs =>
+    if x.rev > R then sLoop R q xs
+    else (if x.key != q.key then emitR q else []) ++ sLoop R x xs
+
+/-- `q` holds the same `(key, rev, val)` as the worker's `prev` -/
+def Prev.Sim (p : Prev) (q : Rec) : Prop := q.key = p.key ∧ q.rev = p.rev ∧ q.val = p.val
+
+/-- a plain read worker: no compaction, expiry disabled -/
+def WCfg.Plain (c : WCfg) : Prop := c.compact = false ∧ c.timeout = 0
+
+theorem expireStep_plain {c : WCfg} (hc : c.Plain) (r : Rec) : expireStep c r = none := by
+  simp [expireStep, hc.2]
+
+theorem emitsOf_emitPrev {p : Prev} {q : Rec} (h : p.Sim q) : emitsOf (emitPrev p) = emitR q := by
+  obtain ⟨h1, h2, h3⟩ := h
+  unfold emitPrev emitR
+  rw [h1, h2, h3]
+  split <;> simp [emitsOf]
+
+theorem workerStep_plain {c : WCfg} (hc : c.Plain) (p : Prev) (r : Rec) :
+    workerStep c p r =
+      if r.rev > c.R then ([], p)
+      else ((if r.key != p.key then emitPrev p else []), ⟨r.key, r.rev, r.val⟩) := by
+  unfold workerStep
+  rw [expireStep_plain hc]
+  simp [hc.1]
+
+theorem emitsOf_workerLoop {c : WCfg} (hc : c.Plain) (p : Prev) (q : Rec) (h : p.Sim q) (l : List Rec) :
+    emitsOf (workerLoop c p l) = sLoop c.R q l := by
+  induction l generalizing p q with
+  | nil => simp [workerLoop, sLoop, emitsOf_emitPrev h]
+  | cons x xs ih =>
+    simp only [workerLoop, sLoop, workerStep_plain hc]
+    by_cases hx : x.rev > c.R
+    · simp only [hx, if_true]
+      simpa [emitsOf] using ih p q h
+    · simp only [hx, if_false, emitsOf_append]
+      rw [ih ⟨x.key, x.rev, x.val⟩ x ⟨rfl, rfl, rfl⟩, h.1]
+      congr 1
+      split
+      · exact emitsOf_emitPrev h
+      · rfl
+
+theorem not_panic_emitPrev (p : Prev) : Act.panic ∉ emitPrev p := by
+  unfold emitPrev; split <;> simp
+
+theorem not_panic_workerLoop {c : WCfg} (hc : c.Plain) (p : Prev) (l : List Rec) :
+    Act.panic ∉ workerLoop c p l := by
+  induction l generalizing p with
+  | nil => simpa [workerLoop] using not_panic_emitPrev p
+  | cons x xs ih =>
+    simp only [workerLoop, workerStep_plain hc, List.mem_append, not_or]
+    by_cases hx : x.rev > c.R
+    · simp only [hx, if_true]
+      exact ⟨by simp, ih p⟩
+    · simp only [hx, if_false]
+      refine ⟨?_, ih _⟩
+      split
+      · exact not_panic_emitPrev p
+      · simp
+
+theorem hasPanic_workerActs {c : WCfg} (hc : c.Plain) (l : List Rec) :
+    hasPanic (workerActs c l) = false := by
+  have := not_panic_workerLoop hc {} l
+  simpa [hasPanic, workerActs] using this
+
+/-- the initial `prev` as a record -/
+def rec0 : Rec := { key := [], rev := 0, val := [], ik := [] }
+
+theorem emitsOf_workerActs {c : WCfg} (hc : c.Plain) (l : List Rec) :
+    emitsOf (workerActs c l) = sLoop c.R rec0 l :=
+  emitsOf_workerLoop hc {} rec0 ⟨rfl, rfl, rfl⟩ l
+
+theorem scanRecs_eq (R : Nat) (l : List Rec) : scanRecs R l = sLoop R rec0 l :=
+  emitsOf_workerActs (c := { R := R }) ⟨rfl, rfl⟩ l
+
+/-! ### `visible` / `readAt` -/
+
+/-- the filter predicate of `visible` -/
+def vis (R : Nat) (k : Bytes) (r : Rec) : Bool := r.key == k && decide (0 < r.rev) && decide (r.rev ≤ R)
+
+theorem visible_def (R : Nat) (l : List Rec) (k : Bytes) : visible R l k = (l.filter (vis R k)).getLast? := rfl
+
+theorem vis_iff {R : Nat} {k : Bytes} {r : Rec} : vis R k r = true ↔ r.key = k ∧ 0 < r.rev ∧ r.rev ≤ R := by
+  simp [vis, and_assoc]
+
+theorem visible_nil (R : Nat) (k : Bytes) : visible R [] k = none := rfl
+
+theorem visible_cons (R : Nat) (q : Rec) (l : List Rec) (k : Bytes) :
+    visible R (q :: l) k = (visible R l k).or (if vis R k q then some q else none) := by
+  simp only [visible_def, List.filter_cons]
+  split
+  · rw [List.getLast?_cons]
+    cases (List.filter (vis R k) l).getLast? <;> simp
+  · simp
+
+theorem visible_cons_neg {R : Nat} {q : Rec} {l : List Rec} {k : Bytes} (h : vis R k q = false) :
+    visible R (q :: l) k = visible R l k := by
+  simp [visible_cons, h]
+
+theorem visible_eq_none_iff {R : Nat} {l : List Rec} {k : Bytes} :
+    visible R l k = none ↔ ∀ x ∈ l, vis R k x = false := by
+  simp [visible_def]
+
+theorem visible_some_mem {R : Nat} {l : List Rec} {k : Bytes} {r : Rec} (h : visible R l k = some r) :
+    r ∈ l ∧ vis R k r = true := by
+  have := List.mem_of_getLast? (visible_def R l k ▸ h)
+  exact List.mem_filter.mp this
+
+/-- what a single candidate record reads as -/
+def readOne (o : Option Rec) : Option (Bytes × Nat) :=
+  match o with
+  | some r => if isTomb r.val then none else some (r.val, r.rev)
+  | none => none
+
+theorem readAt_def (R : Nat) (l : List Rec) (k : Bytes) : readAt R l k = readOne (visible R l k) := by
+  unfold readAt readOne; rfl
+
+/-! ### order facts -/
+
+/-- weak `(key, revision)` order -/
+def recLe (a b : Rec) : Prop := cmp a.key b.key = .lt ∨ (a.key = b.key ∧ a.rev ≤ b.rev)
+
+theorem cmp_lt_irrefl {a : Bytes} : cmp a a ≠ .lt := by simp
+
+theorem recLe_of_recLt {a b : Rec} (h : recLt a b) : recLe a b := by
+  rcases h with h | ⟨h1, h2⟩
+  · exact .inl h
+  · exact .inr ⟨h1, Nat.le_of_lt h2⟩
+
+theorem recLe_trans_lt {a b c : Rec} (h1 : recLe a b) (h2 : recLt b c) : recLe a c := by
+  rcases h1 with h1 | ⟨h1, h1'⟩
+  · rcases h2 with h2 | ⟨h2, _⟩
+    · exact .inl (cmp_lt_trans h1 h2)
+    · exact .inl (h2 ▸ h1)
+  · rcases h2 with h2 | ⟨h2, h2'⟩
+    · exact .inl (h1 ▸ h2)
+    · exact .inr ⟨h1.trans h2, by omega⟩
+
+theorem rec0_le (x : Rec) : recLe rec0 x := by
+  unfold recLe rec0
+  cases hx : x.key with
+  | nil => right; simp
+  | cons a as => left; simp
+
+/-- the loop invariant: `q` is the last accepted record, the rest of the partition follows it -/
+structure LoopInv (R : Nat) (q : Rec) (l : List Rec) : Prop where
+  qR : q.rev ≤ R
+  sorted : l.Pairwise recLt
+  le : ∀ x ∈ l, recLe q x
+
+theorem LoopInv.tail {R : Nat} {q x : Rec} {xs : List Rec} (h : LoopInv R q (x :: xs)) : LoopInv R q xs :=
+  ⟨h.qR, (List.pairwise_cons.mp h.sorted).2, fun y hy => h.le y (List.mem_cons_of_mem _ hy)⟩
+
+theorem LoopInv.step {R : Nat} {q x : Rec} {xs : List Rec} (h : LoopInv R q (x :: xs)) (hx : x.rev ≤ R) :
+    LoopInv R x xs :=
+  ⟨hx, (List.pairwise_cons.mp h.sorted).2,
+    fun y hy => recLe_of_recLt ((List.pairwise_cons.mp h.sorted).1 y hy)⟩
+
+theorem LoopInv.init {R : Nat} {l : List Rec} (hs : SortedRecs l) : LoopInv R rec0 l :=
+  ⟨Nat.zero_le _, hs, fun x _ => rec0_le x⟩
+
+/-- every emission comes from `q` or a record of the list -/
+theorem sLoop_mem_key {R : Nat} {q : Rec} {l : List Rec} {e : KV} (h : e ∈ sLoop R q l) :
+    ∃ r, (r = q ∨ r ∈ l) ∧ r.key = e.1 := by
+  induction l generalizing q with
+  | nil =>
+    simp only [sLoop, emitR] at h
+    split at h
+    · simp at h; exact ⟨q, .inl rfl, by simp [h]⟩
+    · simp at h
+  | cons x xs ih =>
+    simp only [sLoop] at h
+    split at h
+    · obtain ⟨r, hr, hk⟩ := ih h
+      exact ⟨r, hr.imp id (List.mem_cons_of_mem _), hk⟩
+    · rcases List.mem_append.mp h with h | h
+      · split at h
+        · simp only [emitR] at h
+          split at h
+          · simp at h; exact ⟨q, .inl rfl, by simp [h]⟩
+          · simp at h
+        · simp at h
+      · obtain ⟨r, hr, hk⟩ := ih h
+        refine ⟨r, .inr ?_, hk⟩
+        rcases hr with rfl | hr
+        · simp
+        · exact List.mem_cons_of_mem _ hr
+
+theorem mem_emitR {q : Rec} {k v : Bytes} {r : Nat} {R : Nat} (hq : q.rev ≤ R) :
+    (k, v, r) ∈ emitR q ↔ readOne (if vis R k q then some q else none) = some (v, r) := by
+  unfold emitR readOne
+  by_cases h1 : 0 < q.rev <;> by_cases h2 : isTomb q.val = true <;> by_cases h3 : q.key = k <;>
+    simp [vis, h1, h2, h3, hq] <;> grind
+
+theorem visible_cons_isSome {R : Nat} {x : Rec} {xs : List Rec} {k : Bytes} (h : vis R k x = true) :
+    ∃ r, visible R (x :: xs) k = some r := by
+  rw [visible_cons, h]
+  cases visible R xs k <;> simp
+
+theorem lt_key_not_vis {R : Nat} {k : Bytes} {x : Rec} (h : cmp k x.key = .lt) : vis R k x = false := by
+  cases hv : vis R k x with
+  | false => rfl
+  | true =>
+    have := (vis_iff.mp hv).1
+    rw [this] at h; simp at h
+
+theorem key_lt_of_recLe {a b : Rec} {c : Rec} (h : cmp a.key b.key = .lt) (h2 : recLe b c) :
+    cmp a.key c.key = .lt := by
+  rcases h2 with h2 | ⟨h2, _⟩
+  · exact cmp_lt_trans h h2
+  · exact h2 ▸ h
+
+/-- Membership form of the loop: with the invariant, the loop emits exactly the snapshot of
+`q :: l`. -/
+theorem mem_sLoop {R : Nat} {q : Rec} {l : List Rec} (h : LoopInv R q l) (k v : Bytes) (r : Nat) :
+    (k, v, r) ∈ sLoop R q l ↔ readOne (visible R (q :: l) k) = some (v, r) := by
+  induction l generalizing q with
+  | nil =>
+    simp only [sLoop, visible_cons, visible_nil, Option.none_or]
+    exact mem_emitR h.qR
+  | cons x xs ih =>
+    simp only [sLoop]
+    by_cases hx : x.rev > R
+    · simp only [hx, if_true]
+      rw [ih h.tail]
+      have hvx : vis R k x = false := by simp [vis]; omega
+      rw [visible_cons R q (x :: xs), visible_cons_neg hvx, ← visible_cons]
+    · have hx' : x.rev ≤ R := by omega
+      simp only [hx, if_false, List.mem_append]
+      rw [ih (h.step hx')]
+      by_cases hk : x.key = q.key
+      · simp only [hk, bne_self_eq_false, Bool.false_eq_true, if_false, List.not_mem_nil, false_or]
+        rw [visible_cons R q (x :: xs)]
+        cases hq : vis R k q with
+        | false => simp
+        | true =>
+          have hq' := vis_iff.mp hq
+          have hvx : vis R k x = true := by
+            rw [vis_iff]
+            rcases h.le x (by simp) with hlt | ⟨_, hle⟩
+            · rw [hk] at hlt; simp at hlt
+            · exact ⟨hk.trans hq'.1, by omega, hx'⟩
+          obtain ⟨y, hy⟩ := visible_cons_isSome (xs := xs) hvx
+          simp [hy]
+      · have hne : (x.key != q.key) = true := by simpa using hk
+        simp only [hne, if_true]
+        have hlt : cmp q.key x.key = .lt := by
+          rcases h.le x (by simp) with hlt | ⟨he, _⟩
+          · exact hlt
+          · exact absurd he.symm hk
+        by_cases hqk : q.key = k
+        · have hnone : visible R (x :: xs) k = none := by
+            rw [visible_eq_none_iff]
+            intro y hy
+            apply lt_key_not_vis
+            rw [← hqk]
+            rcases List.mem_cons.mp hy with rfl | hy
+            · exact hlt
+            · exact key_lt_of_recLe hlt (recLe_of_recLt ((List.pairwise_cons.mp h.sorted).1 y hy))
+          rw [visible_cons R q (x :: xs), hnone, mem_emitR h.qR]
+          simp [readOne]
+        · have hq : vis R k q = false := by simp [vis, hqk]
+          rw [visible_cons_neg hq, mem_emitR (k := k) (v := v) (r := r) h.qR, hq]
+          simp [readOne]
+
+theorem visible_rec0_cons (R : Nat) (l : List Rec) (k : Bytes) : visible R (rec0 :: l) k = visible R l k :=
+  visible_cons_neg (by simp [vis, rec0])
+
+theorem mem_scanRecs_iff {recs : List Rec} (hs : SortedRecs recs) (R : Nat) (k v : Bytes) (r : Nat) :
+    (k, v, r) ∈ scanRecs R recs ↔ readAt R recs k = some (v, r) := by
+  rw [scanRecs_eq, mem_sLoop (LoopInv.init hs), visible_rec0_cons, readAt_def]
+
+/-! ### sortedness of the output -/
+
+theorem emitR_key {q : Rec} {e : KV} (h : e ∈ emitR q) : e.1 = q.key := by
+  unfold emitR at h
+  split at h
+  · simp at h; simp [h]
+  · simp at h
+
+theorem emitR_pairwise (q : Rec) : (emitR q).Pairwise (fun a b : KV => cmp a.1 b.1 = .lt) := by
+  unfold emitR; split <;> simp
+
+theorem sLoop_sorted {R : Nat} {q : Rec} {l : List Rec} (h : LoopInv R q l) :
+    (sLoop R q l).Pairwise (fun a b : KV => cmp a.1 b.1 = .lt) := by
+  induction l generalizing q with
+  | nil => simpa [sLoop] using emitR_pairwise q
+  | cons x xs ih =>
+    simp only [sLoop]
+    by_cases hx : x.rev > R
+    · simp only [hx, if_true]; exact ih h.tail
+    · have hx' : x.rev ≤ R := by omega
+      simp only [hx, if_false]
+      by_cases hk : x.key = q.key
+      · simpa [hk] using ih (h.step hx')
+      · have hne : (x.key != q.key) = true := by simpa using hk
+        simp only [hne, if_true]
+        have hlt : cmp q.key x.key = .lt := by
+          rcases h.le x (by simp) with hlt | ⟨he, _⟩
+          · exact hlt
+          · exact absurd he.symm hk
+        rw [List.pairwise_append]
+        refine ⟨emitR_pairwise q, ih (h.step hx'), ?_⟩
+        intro a ha b hb
+        rw [emitR_key ha]
+        obtain ⟨y, hy, hyk⟩ := sLoop_mem_key hb
+        rw [← hyk]
+        rcases hy with rfl | hy
+        · exact hlt
+        · exact key_lt_of_recLe hlt (recLe_of_recLt ((List.pairwise_cons.mp h.sorted).1 y hy))
+
+theorem scanRecs_sorted {recs : List Rec} (hs : SortedRecs recs) (R : Nat) :
+    (scanRecs R recs).Pairwise (fun a b => cmp a.1 b.1 = .lt) := by
+  rw [scanRecs_eq]; exact sLoop_sorted (LoopInv.init hs)
+
+/-! ### re-reads -/
+
+theorem visible_filter_live (R : Nat) (recs : List Rec) (k : Bytes) :
+    visible R (recs.filter (fun r => decide (0 < r.rev) && decide (r.rev ≤ R))) k = visible R recs k := by
+  rw [visible_def, visible_def, List.filter_filter]
+  congr 1
+  apply List.filter_congr
+  intro x _
+  simp only [vis]
+  cases x.key == k <;> cases decide (0 < x.rev) <;> cases decide (x.rev ≤ R) <;> rfl
+
+/-! ### point read (`getInternal`) -/
+
+theorem applyLimit_one_head (q : Quirks) (l : List (Bytes × Bytes)) : (applyLimit q 1 l).head? = l.head? := by
+  unfold applyLimit
+  cases q.limitMode <;> simp [List.head?_take]
+
+/-- decode-and-compare on the first hit -/
+def getPost (key : Bytes) : Option (Bytes × Bytes) → Option (Bytes × Nat)
+  | none => none
+  | some (ik, v) =>
+    match decode ik with
+    | .ok k m => if m == 0 || k != key then none else some (v, m)
+    | _ => none
+
+theorem getInternal_eq (c : Cfg) (st : Store) (key : Bytes) (rev : Nat) :
+    getInternal c st key rev =
+      getPost key (iterate c.q st (encode key (if rev == 0 then 2 ^ 64 - 1 else rev)) (encode key 0) 1).head? := by
+  unfold getInternal
+  simp only []
+  generalize iterate c.q st _ _ 1 = l
+  cases l with
+  | nil => rfl
+  | cons x xs => obtain ⟨ik, v⟩ := x; rfl
+
+theorem iterDesc_head (q : Quirks) (s : Store) (start stop : Bytes) :
+    (iterDesc q s start stop).head? =
+      if q.revFirstUnchecked then (s.filter (fun kv => ble kv.1 start)).getLast?
+      else ((s.filter (fun kv => ble kv.1 start)).getLast?).filter (fun kv => blt stop kv.1) := by
+  unfold iterDesc
+  simp only []
+  cases q.revFirstUnchecked with
+  | true =>
+    simp only [if_true]
+    rw [← List.head?_reverse]
+    cases (List.filter (fun kv => ble kv.1 start) s).reverse <;> rfl
+  | false =>
+    simp only [Bool.false_eq_true, if_false]
+    rw [List.head?_takeWhile, List.head?_reverse]
+
+theorem iterate_desc_head {q : Quirks} {s : Store} {start stop : Bytes} (h : cmp start stop = .gt) :
+    (iterate q s start stop 1).head? = (iterDesc q s start stop).head? := by
+  unfold iterate
+  rw [applyLimit_one_head]
+  simp [h]
+
+/-- the records at or below `(k, R)` in `(key, revision)` order -/
+def below (k : Bytes) (R : Nat) (r : Rec) : Bool := blt r.key k || (r.key == k && decide (r.rev ≤ R))
+
+def encRec (r : Rec) : Bytes × Bytes := (encode r.key r.rev, r.val)
+
+theorem encodeStore_def (recs : List Rec) : encodeStore recs = recs.map encRec := rfl
+
+theorem filter_encodeStore_below {recs : List Rec} (hk : ∀ r ∈ recs, Alphabet r.key ∧ r.rev < 2 ^ 64)
+    {k : Bytes} (hka : Alphabet k) {R : Nat} (hR : R < 2 ^ 64) :
+    (encodeStore recs).filter (fun kv => ble kv.1 (encode k R)) = encodeStore (recs.filter (below k R)) := by
+  rw [encodeStore_def, encodeStore_def, List.filter_map]
+  congr 1
+  apply List.filter_congr
+  intro r hr
+  obtain ⟨h1, h2⟩ := hk r hr
+  simp only [Function.comp, encRec, below]
+  rw [Bool.eq_iff_iff, C10.encode_le_iff h1 hka h2 hR]
+  simp
+
+theorem getLast?_filter_of_imp {α : Type} {P Q : α → Bool} {l : List α} {r : α}
+    (h : (l.filter P).getLast? = some r) (himp : ∀ x, Q x = true → P x = true) (hq : Q r = true) :
+    (l.filter Q).getLast? = some r := by
+  have e : l.filter Q = (l.filter P).filter Q := by
+    rw [List.filter_filter]
+    apply List.filter_congr
+    intro x _
+    cases hx : Q x with
+    | false => rfl
+    | true => simp [himp x hx]
+  obtain ⟨ys, hys⟩ := List.getLast?_eq_some_iff.mp h
+  rw [e, hys, List.filter_append]
+  simp [hq]
+
+theorem pairwise_getLast {α : Type} {Rel : α → α → Prop} {l : List α} {r x : α}
+    (hp : l.Pairwise Rel) (h : l.getLast? = some r) (hx : x ∈ l) : x = r ∨ Rel x r := by
+  obtain ⟨ys, rfl⟩ := List.getLast?_eq_some_iff.mp h
+  rw [List.pairwise_append] at hp
+  rcases List.mem_append.mp hx with hx | hx
+  · exact .inr (hp.2.2 x hx r (by simp))
+  · exact .inl (by simpa using hx)
+
+theorem vis_imp_below {k : Bytes} {R : Nat} (x : Rec) (h : vis R k x = true) : below k R x = true := by
+  have := vis_iff.mp h
+  simp [below, this.1, this.2.2]
+
+theorem visible_of_below_last {recs : List Rec} (hs : SortedRecs recs) {k : Bytes} {R : Nat} :
+    visible R recs k = ((recs.filter (below k R)).getLast?).filter (vis R k) := by
+  cases h : (recs.filter (below k R)).getLast? with
+  | none =>
+    rw [List.getLast?_eq_none_iff, List.filter_eq_nil_iff] at h
+    simp only [Option.filter_none]
+    rw [visible_eq_none_iff]
+    intro x hx
+    cases hv : vis R k x with
+    | false => rfl
+    | true => exact absurd (vis_imp_below x hv) (h x hx)
+  | some r =>
+    cases hv : vis R k r with
+    | true =>
+      simp only [Option.filter_some, hv, if_true]
+      exact getLast?_filter_of_imp h vis_imp_below hv
+    | false =>
+      simp only [Option.filter_some, hv, Bool.false_eq_true, if_false]
+      rw [visible_eq_none_iff]
+      intro x hx
+      cases hvx : vis R k x with
+      | false => rfl
+      | true =>
+        exfalso
+        have hxm : x ∈ recs.filter (below k R) := List.mem_filter.mpr ⟨hx, vis_imp_below x hvx⟩
+        have hrm := List.mem_filter.mp (List.mem_of_getLast? h)
+        have hx' := vis_iff.mp hvx
+        have hrb : blt r.key k = true ∨ (r.key = k ∧ r.rev ≤ R) := by simpa [below] using hrm.2
+        rcases pairwise_getLast (List.Pairwise.filter _ hs) h hxm with rfl | hlt
+        · rw [hv] at hvx; exact Bool.noConfusion hvx
+        · rcases hlt with hlt | ⟨he, hlt⟩
+          · rw [hx'.1] at hlt
+            rcases hrb with hrb | ⟨hrb, _⟩
+            · have := cmp_lt_trans hlt (blt_iff.mp hrb); simp at this
+            · rw [hrb] at hlt; simp at hlt
+          · have hrk : r.key = k := he ▸ hx'.1
+            have : vis R k r = true := by
+              rw [vis_iff]
+              rcases hrb with hrb | ⟨_, hrb⟩
+              · rw [hrk] at hrb; simp [blt] at hrb
+              · exact ⟨hrk, by omega, hrb⟩
+            rw [hv] at this; exact Bool.noConfusion this
+
+theorem getPost_encRec {k : Bytes} {R : Nat} {r : Rec} (hr : r.rev < 2 ^ 64) (hb : below k R r = true) :
+    getPost k (some (encRec r)) = ((some r).filter (vis R k)).map (fun r => (r.val, r.rev)) := by
+  simp only [getPost, encRec, decode_encode r.key r.rev hr, Option.filter_some]
+  have hrb : blt r.key k = true ∨ (r.key = k ∧ r.rev ≤ R) := by simpa [below] using hb
+  by_cases h0 : r.rev = 0
+  · simp [h0, vis]
+  · by_cases hk : r.key = k
+    · have : r.rev ≤ R := by
+        rcases hrb with hrb | ⟨_, h⟩
+        · rw [hk] at hrb; simp [blt] at hrb
+        · exact h
+      have h0' : 0 < r.rev := by omega
+      simp [h0, hk, vis, this, h0']
+    · simp [hk, vis]
+
+theorem getInternal_encodeStore (c : Cfg) {recs : List Rec} (hs : SortedRecs recs)
+    (hk : ∀ r ∈ recs, Alphabet r.key ∧ r.rev < 2 ^ 64) (k : Bytes) (hka : Alphabet k)
+    (R : Nat) (hR : R < 2 ^ 64) :
+    getInternal c (encodeStore recs) k R =
+      (visible (if R == 0 then 2 ^ 64 - 1 else R) recs k).map (fun r => (r.val, r.rev)) := by
+  rw [getInternal_eq]
+  generalize hR' : (if R == 0 then 2 ^ 64 - 1 else R) = R'
+  have hR'lt : R' < 2 ^ 64 := by
+    rw [← hR']; split
+    · exact Nat.sub_lt (Nat.pow_pos (by decide)) (by decide)
+    · exact hR
+  have hR'pos : 0 < R' := by
+    rw [← hR']; split
+    · decide
+    · rename_i h; simp at h; omega
+  have hgt : cmp (encode k R') (encode k 0) = .gt := by
+    rw [encode_cmp hka hka hR'lt (by decide)]
+    simp [Nat.compare_eq_gt, hR'pos]
+  rw [iterate_desc_head hgt, iterDesc_head, filter_encodeStore_below hk hka hR'lt,
+    visible_of_below_last hs, encodeStore_def, List.getLast?_map]
+  cases hl : (recs.filter (below k R')).getLast? with
+  | none => simp [getPost]
+  | some r =>
+    have hrm := List.mem_filter.mp (List.mem_of_getLast? hl)
+    have hrlt := (hk r hrm.1).2
+    have hra := (hk r hrm.1).1
+    rw [← getPost_encRec hrlt hrm.2]
+    simp only [Option.map_some]
+    cases c.q.revFirstUnchecked with
+    | true => rfl
+    | false =>
+      simp only [Bool.false_eq_true, if_false, Option.filter_some]
+      split
+      · rfl
+      · rename_i hnb
+        -- the end-bound check rejects `r`: then `r` is an index record or another key
+        have hnb' : ¬ (blt k r.key = true ∨ (k = r.key ∧ 0 < r.rev)) := by
+          rw [← C10.encode_lt_iff hka hra (by decide) hrlt]; exact hnb
+        have hv : vis R' k r = false := by
+          cases hv : vis R' k r with
+          | false => rfl
+          | true =>
+            have := vis_iff.mp hv
+            exact absurd (.inr ⟨this.1.symm, this.2.1⟩) hnb'
+        rw [getPost_encRec hrlt hrm.2, Option.filter_some, hv]
+        rfl
+
+/-! ### range reads over an encoded store -/
+
+theorem Store.get_some_mem {s : Store} {key v : Bytes} (h : s.get key = some v) : ∃ kv ∈ s, kv.1 = key := by
+  induction s with
+  | nil => simp [Store.get] at h
+  | cons x xs ih =>
+    obtain ⟨k, w⟩ := x
+    simp only [Store.get] at h
+    cases hc : cmp key k with
+    | lt => simp [hc] at h
+    | eq => exact ⟨(k, w), by simp, (cmp_eq_iff.mp hc).symm⟩
+    | gt =>
+      simp only [hc] at h
+      obtain ⟨kv, hm, hk⟩ := ih h
+      exact ⟨kv, List.mem_cons_of_mem _ hm, hk⟩
+
+/-- The compaction record's key is never an object key: its 9th byte from the end is `'m'`,
+that of an encoded key is the split byte. -/
+theorem compactKeyOf_ne_encode (c : Cfg) (k : Bytes) (r : Nat) : compactKeyOf c ≠ encode k r := by
+  intro h
+  have := congrArg (fun l => l.reverse[8]?) h
+  simp [compactKeyOf, compactKeyName, encode, be64, beN, splitByte] at this
+
+theorem get_compactKey_encodeStore (c : Cfg) (recs : List Rec) :
+    (encodeStore recs).get (compactKeyOf c) = none := by
+  cases h : (encodeStore recs).get (compactKeyOf c) with
+  | none => rfl
+  | some v =>
+    obtain ⟨kv, hm, hk⟩ := Store.get_some_mem h
+    rw [encodeStore_def, List.mem_map] at hm
+    obtain ⟨r, _, rfl⟩ := hm
+    exact absurd hk.symm (compactKeyOf_ne_encode c r.key r.rev)
+
+theorem belowFloor_encodeStore (c : Cfg) (recs : List Rec) (rev : Nat) :
+    belowFloor c (encodeStore recs) rev = false := by
+  simp [belowFloor, floorOf, get_compactKey_encodeStore]
+
+theorem scanPartitions_single {c : Cfg} (h : c.splits = []) (start stop : Bytes) :
+    scanPartitions c start stop = some [(start, stop)] := by
+  simp [scanPartitions, partitions, h, sortParts, insertPart, adjustBorders]
+
+/-- the raw-key range predicate of a scan -/
+def inRange (a b : Bytes) (r : Rec) : Bool := ble a r.key && blt r.key b
+
+theorem iterate_asc_encodeStore (q : Quirks) {recs : List Rec}
+    (hk : ∀ r ∈ recs, Alphabet r.key ∧ r.rev < 2 ^ 64) {a b : Bytes} (ha : Alphabet a) (hb : Alphabet b)
+    (hab : cmp a b = .lt) :
+    iterate q (encodeStore recs) (encode a 0) (encode b 0) 0 = encodeStore (recs.filter (inRange a b)) := by
+  have hne : a ≠ b := by intro e; rw [e] at hab; simp at hab
+  have hlt : cmp (encode a 0) (encode b 0) = .lt := by
+    rw [encode_cmp ha hb (by decide) (by decide)]; simp [hne, hab]
+  simp only [iterate, applyLimit, hlt, if_true, iterAsc]
+  rw [encodeStore_def, encodeStore_def, List.filter_map]
+  congr 1
+  apply List.filter_congr
+  intro r hr
+  obtain ⟨h1, h2⟩ := hk r hr
+  simp only [Function.comp, encRec, inRange]
+  rw [Bool.eq_iff_iff, Bool.and_eq_true, Bool.and_eq_true]
+  exact C10.range_bounds_exact ha hb h1 h2
+
+/-- a record as the worker decodes it from the encoded store -/
+def reKey (r : Rec) : Rec := { r with ik := encode r.key r.rev }
+
+theorem decodeRecs_encodeStore {l : List Rec} (h : ∀ r ∈ l, r.rev < 2 ^ 64) :
+    decodeRecs (encodeStore l) = some (l.map reKey) := by
+  induction l with
+  | nil => rfl
+  | cons x xs ih =>
+    have hx := h x (by simp)
+    have ih' := ih (fun r hr => h r (List.mem_cons_of_mem _ hr))
+    rw [encodeStore_def] at ih' ⊢
+    simp only [List.map_cons, encRec, decodeRecs, decode_encode x.key x.rev hx]
+    rw [ih']
+    rfl
+
+theorem sLoop_map_reKey (R : Nat) (q q' : Rec) (hq : q.key = q'.key ∧ q.rev = q'.rev ∧ q.val = q'.val)
+    (l : List Rec) : sLoop R q (l.map reKey) = sLoop R q' l := by
+  have hemit : ∀ {q q' : Rec}, (q.key = q'.key ∧ q.rev = q'.rev ∧ q.val = q'.val) → emitR q = emitR q' := by
+    intro q q' h; simp [emitR, h.1, h.2.1, h.2.2]
+  induction l generalizing q q' with
+  | nil => simpa [sLoop] using hemit hq
+  | cons x xs ih =>
+    simp only [List.map_cons, sLoop]
+    have hx : (reKey x).key = x.key ∧ (reKey x).rev = x.rev ∧ (reKey x).val = x.val := ⟨rfl, rfl, rfl⟩
+    rw [ih q q' hq, ih (reKey x) x hx, hemit hq, hx.1, hx.2.1, hq.1]
+
+theorem emits_decoded {c : WCfg} (hc : c.Plain) (l : List Rec) :
+    emitsOf (workerActs c (l.map reKey)) = scanRecs c.R l := by
+  rw [emitsOf_workerActs hc, scanRecs_eq, sLoop_map_reKey c.R rec0 rec0 ⟨rfl, rfl, rfl⟩]
+
+theorem scanParts_encodeStore (c : Cfg) (hsplit : c.splits = []) {recs : List Rec}
+    (hk : ∀ r ∈ recs, Alphabet r.key ∧ r.rev < 2 ^ 64) {a b : Bytes} (ha : Alphabet a) (hb : Alphabet b)
+    (hab : cmp a b = .lt) (rev : Nat) :
+    scanParts c (encodeStore recs) (encode a 0) (encode b 0) rev =
+      .ok [scanRecs rev (recs.filter (inRange a b))] := by
+  have hdec : decodeRecs (encodeStore (recs.filter (inRange a b))) = some ((recs.filter (inRange a b)).map reKey) :=
+    decodeRecs_encodeStore (fun r hr => (hk r (List.mem_filter.mp hr).1).2)
+  have hplain : WCfg.Plain { R := rev, supportTTL := c.q.supportTTL } := ⟨rfl, rfl⟩
+  simp only [scanParts, belowFloor_encodeStore, Bool.false_eq_true, if_false,
+    scanPartitions_single hsplit, List.map_cons, List.map_nil, iterate_asc_encodeStore c.q hk ha hb hab,
+    hdec, hasPanic_workerActs hplain, emits_decoded hplain]
+  simp
+
+theorem scanLimited_encodeStore (c : Cfg) {recs : List Rec}
+    (hk : ∀ r ∈ recs, Alphabet r.key ∧ r.rev < 2 ^ 64) {a b : Bytes} (ha : Alphabet a) (hb : Alphabet b)
+    (hab : cmp a b = .lt) (rev lim : Nat) :
+    scanLimited c (encodeStore recs) (encode a 0) (encode b 0) rev lim =
+      .ok ((scanRecs rev (recs.filter (inRange a b))).take lim) := by
+  have hdec : decodeRecs (encodeStore (recs.filter (inRange a b))) = some ((recs.filter (inRange a b)).map reKey) :=
+    decodeRecs_encodeStore (fun r hr => (hk r (List.mem_filter.mp hr).1).2)
+  have hplain : WCfg.Plain { R := rev, supportTTL := c.q.supportTTL } := ⟨rfl, rfl⟩
+  simp only [scanLimited, belowFloor_encodeStore, Bool.false_eq_true, if_false,
+    iterate_asc_encodeStore c.q hk ha hb hab, hdec, emits_decoded hplain]
+
+theorem not_isEmpty_of_lt {a b : Bytes} (hab : cmp a b = .lt) : b.isEmpty = false := by
+  cases b with
+  | nil => cases a <;> simp at hab
+  | cons _ _ => rfl
+
+theorem doList_unlimited (c : Cfg) (hsplit : c.splits = []) (s : BState) {recs : List Rec}
+    (hstore : s.store = encodeStore recs) (hk : ∀ r ∈ recs, Alphabet r.key ∧ r.rev < 2 ^ 64)
+    {a b : Bytes} (ha : Alphabet a) (hb : Alphabet b) (hab : cmp a b = .lt) (R : Nat) :
+    doList c s a b R 0 = .ok { hdr := s.committed, more := false, kvs := scanRecs (if R == 0 then s.committed else R) (recs.filter (inRange a b)) } := by
+  simp [doList, not_isEmpty_of_lt hab, hab, hstore, scanParts_encodeStore c hsplit hk ha hb hab]
+
+theorem doList_limited (c : Cfg) (s : BState) {recs : List Rec}
+    (hstore : s.store = encodeStore recs) (hk : ∀ r ∈ recs, Alphabet r.key ∧ r.rev < 2 ^ 64)
+    {a b : Bytes} (ha : Alphabet a) (hb : Alphabet b) (hab : cmp a b = .lt) (R : Nat) {n : Nat} (hn : 0 < n) :
+    doList c s a b R n = .ok { hdr := s.committed, more := decide (n < (scanRecs (if R == 0 then s.committed else R) (recs.filter (inRange a b))).length), kvs :=
+        (scanRecs (if R == 0 then s.committed else R) (recs.filter (inRange a b))).take n } := by
+  simp only [doList, not_isEmpty_of_lt hab, hab, hstore, scanLimited_encodeStore c hk ha hb hab]
+  simp only [Bool.false_eq_true, if_false, bne_self_eq_false, gt_iff_lt, hn, if_true, List.length_take,
+    List.take_take]
+  congr 2
+  · apply decide_eq_decide.mpr; omega
+  · congr 1; omega
+
+theorem doCount_encodeStore (c : Cfg) (hsplit : c.splits = []) (hcompat : c.etcdCompat = true) (s : BState)
+    {recs : List Rec} (hstore : s.store = encodeStore recs) (hk : ∀ r ∈ recs, Alphabet r.key ∧ r.rev < 2 ^ 64)
+    {a b : Bytes} (ha : Alphabet a) (hb : Alphabet b) (hab : cmp a b = .lt) :
+    doCount c s a b = .ok (s.committed, (scanRecs s.committed (recs.filter (inRange a b))).length) := by
+  simp [doCount, hcompat, hstore, scanParts_encodeStore c hsplit hk ha hb hab]
+
 end KB
